@@ -216,6 +216,7 @@ func runC12(c *Ctx) {
 	a.handedOut(fns)
 	r.Rule("C12.5", "one-snapshot: an operation takes the cache lock once - not once per looked-up item, and not a second time to publish what it computed from data read under the first", 20)
 	a.oneSection(fns)
+	c.noRebuildAfterLookup("C12.5", c.U.Func("cdi", "(*Cache).InjectDevices"))
 }
 
 func onlyUnknown(rs []lockReq) bool {
